@@ -57,85 +57,91 @@ def runner(pid, prop, tier, seed, scratch, replay=None):
             i += 1
             if n_user_items(files) >= 2:
                 inputs.append((files, 4 if (i - 1) % 2 == 0 else 8, exp))
-    cases = []
-    groups = []     # (input index, [case indices], kind)
-    for ii, (files, ptr, exp) in enumerate(inputs):
-        n = n_user_items(files)
-        idxs = []
-        for sj, s in enumerate(schedules_for(rng, min(n, 12), budget)):
-            idxs.append(len(cases))
-            cases.append(dict(id="i%d-s%d" % (ii, sj), ptr=ptr, schedule=s, files=files))
-        groups.append((ii, idxs, "schedules"))
-        idxs = []
-        for fj in range(nfresh):
-            idxs.append(len(cases))
-            cases.append(dict(id="i%d-h%d" % (ii, fj), ptr=ptr, schedule=None, files=files))
-        groups.append((ii, idxs, "hash_seeds"))
-    results = engine.run(cases, scratch)
-    # module-addition orders through the API, from the ASTs of the first run of each input
-    api_cases = []
-    api_groups = []
-    for ii, idxs, kind in groups:
-        if kind != "schedules":
-            continue
-        r0 = results[idxs[0]]
-        asts = sx.field(r0.h, "asts") or []
-        if not asts or any(a[0] != "ast" for a in asts) or len(asts) < 2:
-            continue
-        mods = [(sx.show(a[2]), sx.show(a[3])) for a in asts]
-        perms = list(itertools.permutations(mods))
-        rng.shuffle(perms)
-        gi = []
-        for pj, perm in enumerate(perms[:6 if tier == "quick" else 24]):
-            gi.append(len(api_cases))
-            api_cases.append(dict(id="i%d-m%d" % (ii, pj), ptr=r0.case["ptr"], schedule=[0] * 16, modules=list(perm)))
-        api_groups.append((ii, gi))
-    api_results = engine.run(api_cases, scratch) if api_cases else []
-
-    out = dict(evaluations=len(cases) + len(api_cases), failures=[], breaks=[], samples=[], notes=[])
+    out = dict(evaluations=0, failures=[], breaks=[], samples=[], notes=[])
     dist = collections.Counter()
     nontrivial = 0
-    for ii, idxs, kind in groups:
-        outs = collections.defaultdict(list)
-        for ci in idxs:
-            r = results[ci]
-            outs[outcome(r)].append(r)
-            if kind == "schedules" and r.mv is not None and r.hv[0] != r.mv[0]:
-                out["breaks"].append(dict(aspect="verdict", detail="schedule %s: impl %s vs model %s" % (r.case["schedule"], r.hv[0], r.mv[0]),
-                                          case=props.summarise_case(r.case)))
-            if r.hv[0] in ("hang", "crash", "panic"):
-                dist["impl_" + r.hv[0]] += 1
-            if kind == "schedules" and r.m is not None and ci == idxs[0]:
-                dist[props.hyps_key(r.m)] += 1
-        dist["%s:%d_outcomes" % (kind, len(outs))] += 1
-        if len(outs) > 1:
-            classes = sorted(outs, key=lambda o: -len(outs[o]))
-            a, b = outs[classes[0]][0], outs[classes[1]][0]
-            out["failures"].append(dict(
-                clause="C09." + kind, files=inputs[ii][0], ptr=inputs[ii][1],
-                detail="the same input set gave %d different results under different %s: %s (schedule %s) vs %s (schedule %s)" % (
-                    len(outs), "resolution orders" if kind == "schedules" else "hash seeds / runs",
-                    a.hv[0], a.case.get("schedule"), b.hv[0], b.case.get("schedule")),
-                case=dict(id=a.case["id"], ptr=inputs[ii][1], files=inputs[ii][0])))
-        if kind == "schedules" and results[idxs[0]].hv[0] == "ok" and n_user_items(inputs[ii][0]) >= 2:
-            nontrivial += 1
-    for ii, gi in api_groups:
-        outs = collections.defaultdict(list)
-        for ci in gi:
-            outs[outcome(api_results[ci])].append(api_results[ci])
-        dist["module_orders:%d_outcomes" % len(outs)] += 1
-        # the API path must also agree with the file path
-        ref = outcome(results[[g for g in groups if g[0] == ii and g[2] == "schedules"][0][1][0]])
-        if len(outs) > 1 or (outs and list(outs)[0][0] != ref[0]):
-            out["failures"].append(dict(clause="C09.module_order", files=inputs[ii][0], ptr=inputs[ii][1],
-                                        detail="module-addition order changes the result: %s" % [o[0] for o in outs],
-                                        case=dict(id="i%d" % ii, ptr=inputs[ii][1], files=inputs[ii][0])))
+    # inputs are processed in batches so that memory stays bounded (a result holds the whole dump)
+    BATCH = 20
+    for b0 in range(0, len(inputs), BATCH):
+        batch = list(range(b0, min(b0 + BATCH, len(inputs))))
+        cases = []
+        groups = []     # (input index, [case indices], kind)
+        for ii in batch:
+            files, ptr, exp = inputs[ii]
+            n = n_user_items(files)
+            idxs = []
+            for sj, sch in enumerate(schedules_for(rng, min(n, 12), budget)):
+                idxs.append(len(cases))
+                cases.append(dict(id="i%d-s%d" % (ii, sj), ptr=ptr, schedule=sch, files=files))
+            groups.append((ii, idxs, "schedules"))
+            idxs = []
+            for fj in range(nfresh):
+                idxs.append(len(cases))
+                cases.append(dict(id="i%d-h%d" % (ii, fj), ptr=ptr, schedule=None, files=files))
+            groups.append((ii, idxs, "hash_seeds"))
+        results = engine.run(cases, scratch)
+        # module-addition orders through the API, from the ASTs of the first run of each input
+        api_cases = []
+        api_groups = []
+        for ii, idxs, kind in groups:
+            if kind != "schedules":
+                continue
+            r0 = results[idxs[0]]
+            asts = sx.field(r0.h, "asts") or []
+            if not asts or any(a[0] != "ast" for a in asts) or len(asts) < 2:
+                continue
+            mods = [(sx.show(a[2]), sx.show(a[3])) for a in asts]
+            perms = list(itertools.permutations(mods))
+            rng.shuffle(perms)
+            gi = []
+            for pj, perm in enumerate(perms[:6 if tier == "quick" else 24]):
+                gi.append(len(api_cases))
+                api_cases.append(dict(id="i%d-m%d" % (ii, pj), ptr=r0.case["ptr"], schedule=[0] * 16, modules=list(perm)))
+            api_groups.append((ii, gi))
+        api_results = engine.run(api_cases, scratch) if api_cases else []
+        out["evaluations"] += len(cases) + len(api_cases)
+        for ii, idxs, kind in groups:
+            outs = collections.defaultdict(list)
+            for ci in idxs:
+                r = results[ci]
+                outs[outcome(r)].append(r)
+                if kind == "schedules" and r.mv is not None and r.hv[0] != r.mv[0]:
+                    out["breaks"].append(dict(aspect="verdict", detail="schedule %s: impl %s vs model %s" % (r.case["schedule"], r.hv[0], r.mv[0]),
+                                              case=props.summarise_case(r.case)))
+                if r.hv[0] in ("hang", "crash", "panic"):
+                    dist["impl_" + r.hv[0]] += 1
+                if kind == "schedules" and r.m is not None and ci == idxs[0]:
+                    dist[props.hyps_key(r.m)] += 1
+            dist["%s:%d_outcomes" % (kind, len(outs))] += 1
+            if len(outs) > 1:
+                classes = sorted(outs, key=lambda o: -len(outs[o]))
+                a, b = outs[classes[0]][0], outs[classes[1]][0]
+                out["failures"].append(dict(
+                    clause="C09." + kind, files=inputs[ii][0], ptr=inputs[ii][1],
+                    detail="the same input set gave %d different results under different %s: %s (schedule %s) vs %s (schedule %s)" % (
+                        len(outs), "resolution orders" if kind == "schedules" else "hash seeds / runs",
+                        a.hv[0], a.case.get("schedule"), b.hv[0], b.case.get("schedule")),
+                    case=dict(id=a.case["id"], ptr=inputs[ii][1], files=inputs[ii][0])))
+            if kind == "schedules" and results[idxs[0]].hv[0] == "ok" and n_user_items(inputs[ii][0]) >= 2:
+                nontrivial += 1
+        for ii, gi in api_groups:
+            outs = collections.defaultdict(list)
+            for ci in gi:
+                outs[outcome(api_results[ci])].append(api_results[ci])
+            dist["module_orders:%d_outcomes" % len(outs)] += 1
+            # the API path must also agree with the file path
+            ref = outcome(results[[g for g in groups if g[0] == ii and g[2] == "schedules"][0][1][0]])
+            if len(outs) > 1 or (outs and list(outs)[0][0] != ref[0]):
+                out["failures"].append(dict(clause="C09.module_order", files=inputs[ii][0], ptr=inputs[ii][1],
+                                            detail="module-addition order changes the result: %s" % [o[0] for o in outs],
+                                            case=dict(id="i%d" % ii, ptr=inputs[ii][1], files=inputs[ii][0])))
+        if replay:
+            for r in results:
+                print("replay:", r.case["id"], r.case.get("schedule"), r.hv[0])
+        del results, api_results, cases, api_cases
     out["distinct_nontrivial"] = nontrivial
     out["distribution"] = dict(dist)
     out["samples"] = [dict(files=inputs[k][0], ptr=inputs[k][1], schedules_tried=budget, hash_seed_runs=nfresh) for k in range(min(2, len(inputs)))]
-    if replay:
-        for r in results:
-            print("replay:", r.case["id"], r.case.get("schedule"), r.hv[0])
     return out
 
 
